@@ -93,6 +93,7 @@ class Actor(object):
 
 
 # replay / minimisation plumbing: decision traces are forced and captured per simulator seed
+FINISHED = []        # (schedule signature, steps, virtual seconds) of every simulator unwound
 FORCED = None        # dict seed -> list of decisions, or None
 CAPTURE = None       # dict seed -> Sim, filled when not None
 
@@ -359,6 +360,8 @@ class Sim(object):
     def unwind(self):
         """Resume every parked task with SimAbort so that its thread exits."""
         self._aborting = True
+        FINISHED.append((self.sched_sig.hexdigest(), self.steps, self.now - 1000.0,
+                         len(self.trace)))
         for t in self.tasks:
             if t.done:
                 continue
